@@ -1,0 +1,17 @@
+//go:build verif
+
+package main
+
+// Machine-checked contracts for the program entry (comment-only; compiled only with -tags verif).
+
+//@ ghost scratch exitErr error
+
+// main: an error of the command ends the process through os.Exit with a non-zero status (os.Exit is
+// assumed not to return and is required to be called with a non-zero code everywhere in /repo).
+//@ func main
+//@ props C09
+// building the command allocates and fills the App, its Options and the IO streams (uncontracted
+// constructor: its possible writes are havocked, so they are named here)
+//@ modifies app.App.Options, app.App.stream, app.App.logger, iostream.IOStream.Stdout, iostream.IOStream.Stderr
+//@ at return run#0: ghost exitErr = err
+//@ ensures [C09,an-error-ends-in-a-nonzero-exit] exitErr == nil
